@@ -120,6 +120,8 @@ def replay(ctx):
         job.update({"lens": [n], "pack_lens": [n], "trans_lens": [n]})
     elif rec["kind"] == "server":
         job.update({"server_runs": 30, "server_k": rec.get("n", 8)})
+    elif rec["kind"] == "stall":
+        job.update({"stall_runs": 32})
     else:
         # behaviours and random streams are regenerated from the seed: re-run the quick tier's set
         behs, jb = sim_behaviours(ctx, 300)
@@ -139,17 +141,19 @@ def run(ctx):
         "property and not asserted (class 'open'; behaviours containing it are not replayed under the +11 map)",
         "DoQ streams use the same helpers (copyMsgWithLenHdr, ReadRawMsgFromTCP, PackTCPBuffer); quic-go itself is not driven",
         "PackTCPBuffer is driven with messages of an exact packed size built from NULL records; miekg/dns Pack is trusted",
+        "a read deadline that fires inside a frame loses the stream (error) unless the reader keeps its partial state; "
+        "driven on the real pipeline transport with a harness conn that has real deadlines (idle timeout 250 ms)",
         "the server part uses the real server.ServeTCP on a harness listener/conn (no kernel socket): one Write call "
         "= one recorded chunk",
     ]
     # ---- leg A
     vlib.tlc_mc(ctx, "Framing", "Framing_design3.cfg" if T else "Framing_design.cfg", workers=8,
                 label="design: %d concurrent writers x lengths {0,1,2,3,5,16} x all chunkings x cuts" % (3 if T else 2))
-    for d in ("SplitWrite", "NoMaxCheck", "NoMinCheck", "NoReadFull"):
+    for d in ("SplitWrite", "NoMaxCheck", "NoMinCheck", "NoReadFull", "ResumeFresh"):
         nv = vlib.run_tlc(ctx, "Framing", "Framing_pinned_%s.cfg" % d, expect_violation=True, workers=1)
         if nv["violated"] != "C16Inv":
             raise vlib.Infra("non-vacuity (%s): expected C16Inv to fail, got %r" % (d, nv["violated"]))
-    ctx.cov["non_vacuity"] = "C16Inv violated by TLC for each of SplitWrite, NoMaxCheck, NoMinCheck, NoReadFull"
+    ctx.cov["non_vacuity"] = "C16Inv violated by TLC for each of SplitWrite, NoMaxCheck, NoMinCheck, NoReadFull, ResumeFresh"
     table = get_table(ctx)
     ctx.cov["outcome_table"] = table
 
@@ -165,17 +169,17 @@ def run(ctx):
         lens = list(range(65538))
         pack_lens = sorted(set(range(0, 65538, 7)) | edges | set(range(28, 600)))
         trans_lens = sorted(edges | {rng.randrange(12, 65538) for _ in range(500)})
-        nsim, nstreams, sruns, sk, te = 10000, 20000, 300, 16, 29
+        nsim, nstreams, sruns, sk, te, stalls = 10000, 20000, 300, 16, 29, 160
     else:
         lens = sorted(edges | set(range(0, 300)) | {rng.randrange(65538) for _ in range(1500)})
         pack_lens = sorted(edges | set(range(12, 60)) | {rng.randrange(28, 65538) for _ in range(150)})
         trans_lens = sorted({x for x in edges if x < 300 or x > 65000} | {rng.randrange(12, 65538) for _ in range(25)})
-        nsim, nstreams, sruns, sk, te = 300, 400, 20, 8, 7
+        nsim, nstreams, sruns, sk, te, stalls = 300, 400, 20, 8, 7, 32
     behs, jb = sim_behaviours(ctx, nsim)
     log("sweep %d lengths (raw), %d (pack), %d (transports); %d behaviours -> %d replays; %d streams; %d server runs x %d" % (
         len(lens), len(pack_lens), len(trans_lens), len(behs), len(jb), nstreams, sruns, sk))
     job = {"table": table, "lens": lens, "pack_lens": pack_lens, "trans_lens": trans_lens, "behaviours": jb,
-           "streams": nstreams, "server_runs": sruns, "server_k": sk, "trace_every": te}
+           "streams": nstreams, "server_runs": sruns, "server_k": sk, "trace_every": te, "stall_runs": stalls}
     binary = vlib.go_build(ctx, "drv_framing")
     recs, _ = vlib.run_driver(ctx, binary, stdin_obj=job, timeout=1500)
     keys = evaluate(ctx, recs)
@@ -192,6 +196,9 @@ def run(ctx):
                 raise vlib.Infra("driver returned %d '%s' results, expected %d" % (kinds.get(k, 0), k, n))
         if kinds.get("transport-inconclusive", 0) > max(2, len(trans_lens) // 10):
             raise vlib.Infra("%d transport exchanges ended without a verdict" % kinds["transport-inconclusive"])
+        if kinds.get("stall", 0) < stalls // 2:
+            raise vlib.Infra("only %d of %d stalled-reply runs completed (%d inconclusive)" % (
+                kinds.get("stall", 0), stalls, kinds.get("stall-inconclusive", 0)))
         if kinds.get("server", 0) < sruns * 3 // 4:
             raise vlib.Infra("only %d of %d ServeTCP runs completed (%d inconclusive)" % (
                 kinds.get("server", 0), sruns, kinds.get("server-inconclusive", 0)))
